@@ -204,6 +204,7 @@ def run(chk):
     ec = eval_cases(chk.rng, chk.tier)
     eo = core.pool_map(c10.run_impl, ec)
     pairs = [(c, o, c10.coq_case(c, o)) for c, o in zip(ec, eo) if o[0] == "ok"]
+    pairs = [x for x in pairs if x[2] is not None]
     try:
         bad, shown = chk.coq_eval(c10.IMPORTS, c10.CASE_TYPE, c10.CHECKER, [t for _, _, t in pairs], show=c10.SHOW)
     except core.CoqEvalError as e:
